@@ -29,7 +29,12 @@ type Search struct {
 }
 
 func newSearch(db *DB, o Object, f []*indexedField, err error) *Search {
-	return &Search{db: db, object: o, fields: f, limit: math.MaxUint, err: err}
+	// index searches return sub-slices of the live index: we take a copy so
+	// that later inserts/deletes (which shift the index in place) cannot
+	// change the objects denoted by this search
+	fields := make([]*indexedField, len(f))
+	copy(fields, f)
+	return &Search{db: db, object: o, fields: fields, limit: math.MaxUint, err: err}
 }
 
 // ExpectsZeroOrN checks that the number of results is the one expected or zero.
